@@ -152,7 +152,7 @@ struct Spec {
 // ------------------------------------------------------------------------------------------------
 enum EvKind {
   E_CB_ITEM, E_CB_END, E_CB_THROW, E_REW_OK, E_REW_THROW,
-  E_START, E_NEXT_ITEM, E_NEXT_END, E_CALL_ERR, E_CALL_OK, E_BF_OK, E_DESTROY_OK
+  E_START, E_NEXT_ITEM, E_NEXT_HANDED, E_NEXT_END, E_CALL_ERR, E_CALL_OK, E_BF_OK, E_DESTROY_OK
 };
 struct OEv {
   EvKind k;
@@ -160,6 +160,16 @@ struct OEv {
   int pass, idx;
   char op;    // n r v b d  (consumer events)
 };
+
+// the property whose program family is being run (--prop): every oracle failure on that family is reported under it
+// (the clause's own property is kept in the text), so that no failure is filtered away by the caller
+std::string g_prop;
+inline std::string tag_prop(const char *clause) {
+  return g_prop.empty() ? std::string(clause) : g_prop;
+}
+inline std::string clause_note(const char *clause) {
+  return (g_prop.empty() || g_prop == clause) ? std::string() : std::string(" [clause of ") + clause + "]";
+}
 
 struct Exec {
   Spec spec;
@@ -188,7 +198,7 @@ struct Exec {
   }
   void ev(const std::string &s) { pending.push_back(s); }
   void fail(const char *prop, const char *cls, const std::string &msg) {
-    if (fails.size() < 8) fails.push_back(std::string("class=") + cls + " prop=" + prop + " " + msg);
+    if (fails.size() < 8) fails.push_back(std::string("class=") + cls + " prop=" + tag_prop(prop) + " " + msg + clause_note(prop));
   }
   int lent_now() const {
     int n = 0;
@@ -325,7 +335,10 @@ void do_op(Exec *X, int slot, const std::string &op) {
     } catch (...) {
       r = "ret=n:" + classify(X);
       X->olog.push_back(OEv{E_CALL_ERR, slot, 0, 0, 'n'});
-      if (p != nullptr) X->held[slot].push_back(p);  // the cell was handed over before the throw
+      if (p != nullptr) {  // the item was popped and handed over (*out_dptr set) before the final check threw:
+        X->held[slot].push_back(p);  // it counts as delivered for the exactly-once / prefix accounting
+        X->olog.push_back(OEv{E_NEXT_HANDED, slot, p->v / 100, p->v % 100, 'n'});
+      }
     }
     X->cur_out[slot] = nullptr;
     X->ev(r);
@@ -355,6 +368,8 @@ void do_op(Exec *X, int slot, const std::string &op) {
     X->ev("start=nv");
     X->olog.push_back(OEv{E_START, slot, 0, 0, 'n'});
     std::string r;
+    const Cell *before = IT(X, out_data_);
+    int before_v = before ? before->v : -1;
     try {
       bool got = IT(X, Next());
       if (got) {
@@ -374,6 +389,9 @@ void do_op(Exec *X, int slot, const std::string &op) {
     } catch (...) {
       r = "ret=nv:" + classify(X);
       X->olog.push_back(OEv{E_CALL_ERR, slot, 0, 0, 'n'});
+      const Cell *now = IT(X, out_data_);
+      if (now != nullptr && now->v != before_v)  // popped into out_data_ before the final check threw
+        X->olog.push_back(OEv{E_NEXT_HANDED, slot, now->v / 100, now->v % 100, 'n'});
     }
     X->ev(r);
   } else if (op == "v") {
@@ -569,7 +587,7 @@ RunOut run_one(const Spec &sp, vs::Chooser *inner, bool fine, int spurious_budge
 void oracle(Exec *X, const vs::Result &r, std::vector<std::string> *fails) {
   *fails = X->fails;
   auto fail = [&](const char *prop, const char *cls, const std::string &m) {
-    if (fails->size() < 12) fails->push_back(std::string("class=") + cls + " prop=" + prop + " " + m);
+    if (fails->size() < 12) fails->push_back(std::string("class=") + cls + " prop=" + tag_prop(prop) + " " + m + clause_note(prop));
   };
   const Spec &sp = X->spec;
   bool failing = sp.has_failure();
@@ -636,6 +654,10 @@ void oracle(Exec *X, const vs::Result &r, std::vector<std::string> *fails) {
         if (err_before_start[e.slot]) fail("C09", "none", "a call started after an error was reported delivered an item");
         break;
       }
+      case E_NEXT_HANDED:
+        if (e.idx >= produced[e.pass]) fail("C07", "none", "handed over an item that was never produced");
+        delivered[e.pass].push_back(e.idx);
+        break;
       case E_NEXT_END:
         if (!destroyed) {
           if (thrown) fail("C09", "none", "Next reported a normal end after the producer failed");
@@ -859,7 +881,7 @@ int main(int argc, char **argv) {
   std::string prop = "C07";
   long budget = -1;
   for (int i = 1; i < argc; ++i) {
-    if (!strcmp(argv[i], "--prop") && i + 1 < argc) prop = argv[++i];
+    if (!strcmp(argv[i], "--prop") && i + 1 < argc) { prop = argv[++i]; g_prop = prop; }
     if (!strcmp(argv[i], "--budget") && i + 1 < argc) budget = atol(argv[++i]);
   }
   TIterHarness h;
